@@ -95,10 +95,8 @@ func (r *dbRun) event(name string, args ...any) {
 			case r.progress <- struct{}{}:
 			default:
 			}
+			// (the releaser has cleared r.parked under r.mu before sending: a parking is released exactly once)
 			<-r.release
-			r.mu.Lock()
-			r.parked = false
-			r.mu.Unlock()
 		}
 	case "rotate":
 		r.mu.Lock()
@@ -214,20 +212,25 @@ func (r *dbRun) call(f func()) {
 			}
 			return
 		case <-time.After(2 * time.Millisecond):
-			r.mu.Lock()
-			p := r.parked
-			r.mu.Unlock()
-			if p {
-				select {
-				case r.release <- struct{}{}:
-				default:
-				}
-			}
+			r.unpark()
 			if time.Since(start) > 20*time.Second {
 				panic("HANG: an API call did not return within 20 s\n" + allStacks())
 			}
 		}
 	}
+}
+
+// unpark releases the flusher if it is parked at a gate: the parking is claimed under the lock, so the send below is
+// always matched by the flusher's receive and two releasers can never both wait for the same parking
+func (r *dbRun) unpark() bool {
+	r.mu.Lock()
+	p := r.parked
+	r.parked = false
+	r.mu.Unlock()
+	if p {
+		r.release <- struct{}{}
+	}
+	return p
 }
 
 // bg releases the flusher for one stage and waits until it parks again or goes idle
@@ -260,7 +263,9 @@ func (r *dbRun) bg() bool {
 	case <-r.progress:
 	default:
 	}
-	r.release <- struct{}{}
+	if !r.unpark() {
+		return false
+	}
 	select {
 	case <-r.progress:
 	case <-time.After(5 * time.Second):
@@ -332,11 +337,8 @@ func dbExec(ops []string) (dops []string, res []string) {
 		if r.db != nil && r.db.State() != originium.StateClosed {
 			r.mu.Lock()
 			r.gated = false
-			p := r.parked
 			r.mu.Unlock()
-			if p {
-				r.release <- struct{}{}
-			}
+			r.unpark()
 			for _, t := range txns {
 				t.Discard()
 			}
@@ -465,11 +467,8 @@ func dbExec(ops []string) (dops []string, res []string) {
 			r.syncMarks()
 			r.mu.Lock()
 			r.gated = false
-			p := r.parked
 			r.mu.Unlock()
-			if p {
-				r.release <- struct{}{}
-			}
+			r.unpark()
 			r.db.Close()
 			r.mu.Lock()
 			r.log("close", "ok")
